@@ -30,20 +30,21 @@ def sourceHashes : List (String × String) :=
    ("case ifStmt2#1", "36c6949d0520f99e"),
    ("case ifStmt3#0", "592cdc28fdc201d7"),
    ("case ifStmt3#1", "ac82cc0bee664854"),
-   ("case landExpr#0", "5afec12133b733bb"),
-   ("case lorExpr#0", "22da81a1dc20475b"),
-   ("case parenExpr#0", "ef944c3d107b7994"),
-   ("case parenExpr#1", "28c5fe2b2cea6fed"),
-   ("case parenExpr#2", "5fc4865eeba4feb4"),
+   ("case landExpr#0", "c9075fed206b13bb"),
+   ("case lorExpr#0", "00ec81d8fb56d3ae"),
+   ("case parenExpr#0", "6e24d036a7f5c856"),
+   ("case parenExpr#1", "65a34b4f4445f16e"),
+   ("case parenExpr#2", "4a8379d90b552d93"),
+   ("case parenExpr#3", "5fc4865eeba4feb4"),
    ("wireChild", "a85b0d7e0de5134f"),
    ("setFNext", "0f44129452794df2"),
    ("runCfg", "d90b0b7ab1fcffd5"),
    ("branch", "b7a09978f3df34b2"),
    ("nop", "38a10715a79b43bd"),
    -- frame-slot level (Model/CfgSlots.lean): the slot-choosing switches of cfg.go and the closures
-   ("assignStmt: skip-assign switch", "477e8a7ce6cd24ad"),
+   ("assignStmt: skip-assign switch", "fbafc2c9d36d5a8e"),
    ("binaryExpr: findex switch", "48c75e35f0734e48"),
-   ("unaryExpr: findex switch", "7c446f5014699902"),
+   ("unaryExpr: findex switch", "878ef56087096278"),
    ("isArithmeticAction", "f57163de29913322"),
    ("run.go assign", "bc12620dcf6fb973"),
    ("run.go _return", "a27f80f01fc3a454"),
@@ -53,11 +54,16 @@ def sourceHashes : List (String × String) :=
    ("op.go quo", "88d5dd115428d689"),
    ("op.go lower", "d81ccb894c300fc6")]
 
--- closure fragment (Model/Closures.lean): copy of the extractor output on the reviewed tree (/repo at ba001d8). Reviewed since the
--- model was written (2e388d6): da35a0b adds the hidden slot of a ranged pointer-to-array; 8bd8040 + 6ebc898 mark named variables
--- redeclared in their own scope by a multi-variable `:=` (and changed the multi-define path of run.go assign); d26dd9e removes the
--- reset of the function literal's own temporary slot from getFunc, whose call frame now comes from newCallFrame(fr, …) = newFrame(fr, …)
--- with the root's run id — none of it is in the fragment or changes the mechanism modelled.
+-- Final sync on the frozen tree (/repo at 4adaaf3). Rows of the first two levels that changed since ba001d8, each reviewed:
+--   case landExpr#0 / lorExpr#0: check.logicalExpr and folding of two CONSTANT operands added (d04f498, 5877dba); wiring unchanged
+--   case parenExpr#0 / #1: type propagation skipped under comparisons (isBoolAction); #2 is a new empty clause in assignXStmt
+--     (assignment-mismatch check), the post-order clause is now #3 and unchanged
+--   assignStmt: skip-assign switch / unaryExpr: findex switch: the channel-receive shortcut removed (177a151) — not in the fragment
+-- closure fragment (Model/Closures.lean): copy of the extractor output on the same tree. Reviewed since the model was written (2e388d6):
+-- da35a0b hidden slot of a ranged pointer-to-array and 2d45b63 "cannot range over" check (rangeStmt slots); 8bd8040 + 6ebc898 redeclared
+-- marking of multi-variable `:=`; d26dd9e getFunc without the reset of its temporary slot, newCallFrame; 231dea3 rangeInt copies the bound
+-- (fact "rangeInt keeps the value object of the bound" false: F51 repaired); 1c8103f isLoopVarCopy — a define of the loop variable's name
+-- in the loop body takes a slot of its own (fact "… is a nop" false: F52 repaired).
 /-- fingerprints of the functions and clauses Model/Closures.lean transcribes -/
 def closureHashes : List (String × String) :=
   [("newFrame", "da1db819d5067f56"),
@@ -70,7 +76,7 @@ def closureHashes : List (String × String) :=
    ("loopVarForEnd", "fe93ec26819e3e17"),
    ("loopVarKey", "850d1ef64799110f"),
    ("loopVarVal", "fcbafb1e09580702"),
-   ("rangeInt", "2c22101342e1ed12")] ++
+   ("rangeInt", "d725eec9c1021829")] ++
   [("scope.lookup", "cc08c4552fe1b40f"),
    ("scope.add", "441317678d25bfc3"),
    ("scope.push", "0aefc5f773643548"),
@@ -80,17 +86,19 @@ def closureHashes : List (String × String) :=
   [("run.go assign: define branch", "3fc491eab953d151"),
    ("case funcLit#0", "f555f72b975797df"),
    ("case funcLit#1", "ff3c817d9d2647b4"),
-   ("case blockStmt: rangeStmt slots", "ea000d42ea48b396"),
+   ("case blockStmt: rangeStmt slots", "ec42ad96f33938f7"),
    ("case blockStmt: rangeStmt loop variables", "622ea483f6088b41"),
    ("case blockStmt: forStmt7 loop variable", "bab8f2008eed8949"),
-   ("case assignStmt, defineStmt: define allocates a slot", "f7438b5e8a549c39")]
+   ("case assignStmt, defineStmt: define allocates a slot", "d574df950bf3f087"),
+   ("isLoopVarCopy", "a90f7911dc6ac156")]
 /-- the choices of the source Model/Closures.lean is parametrised by (`Mech`) -/
 def mechFacts : List (String × String) :=
   [("define allocates a fresh value", "true"),
    ("getFunc clones the frame", "true"),
    ("loopVarFor allocates a fresh value", "true"),
    ("loopVarKey allocates a fresh value", "true"),
-   ("rangeInt keeps the value object of the bound", "true"),
+   ("rangeInt keeps the value object of the bound", "false"),
+   ("a define of the loop variable's name in the loop body is a nop", "false"),
    ("identExpr takes level and index from scope.lookup", "true"),
    ("loopVarForEnd copies back", "true")]
 end YaegiVerif.Expected.C01
